@@ -10,6 +10,7 @@ mod cfgcenter;
 mod codec;
 mod decode;
 mod echoreplay;
+mod front;
 mod logfile;
 mod meta;
 mod node;
@@ -46,6 +47,7 @@ fn main() {
         ("record", "seqnode") => seq::record_seqnode(&args[3..]),
         ("replay", "ownership") => ownership::replay(&args[3..]),
         ("authz", _) => authz::main_authz(&args[2..]),
+        ("front", _) => front::main_front(&args[2..]),
         ("replay", "meta") => meta::replay(&args[3..]),
         ("decode", "catalogue") => decode::main_decode(&args[3..]),
         ("node", "run") => node::main_node(&args[3..]),
